@@ -353,9 +353,7 @@ func c12R5(c *core.Ctx, r *core.Report, ro *core.Roles, sorter *ssa.Function) {
 	if r.Tier == "thorough" {
 		maxLen = 3
 	}
-	subjects := lowestReaching(c, "app",
-		func(com *ssa.CallCommon) bool { return core.IsInvoke(com, ro.FRefresh) },
-		func(com *ssa.CallCommon) bool { return core.IsInvoke(com, ro.RunnerRun) })
+	subjects := startRoutines(c)
 	ar, appT := c.Named("definition", "ApplicationRunner"), c.Named("app", "App")
 	if r.Exactly("C12.R5", "start routines (smallest function of package app reaching Factory.Refresh and ApplicationRunner.Run)", len(subjects), 1) && ar != nil && appT != nil {
 		runFn := subjects[0]
@@ -482,12 +480,12 @@ func c12R5(c *core.Ctx, r *core.Report, ro *core.Roles, sorter *ssa.Function) {
 	}
 	for fr := range fields {
 		_, isIndex := derivedDispatchLists(c)[fr.Name]
-		r.Check(fr.Owner == bs.recv && (fr.Name == bs.dispatch || isIndex), "C12.R5", "dispatch-list:"+fr.Owner.Obj().Name()+"."+fr.Name, c.FnPos(bs.fn),
+		r.Check(fr.Owner == bs.owner && (fr.Name == bs.dispatch || isIndex), "C12.R5", "dispatch-list:"+fr.Owner.Obj().Name()+"."+fr.Name, c.FnPos(bs.fn),
 			"every dispatch loop ranges over the one list the bootstrap routine fills in contract order ("+bs.recv.Obj().Name()+"."+bs.dispatch+")")
 	}
 	helpers := map[*ssa.Function]bool{}
 	reachesCall(bs.fn, func(*ssa.CallCommon) bool { return false }, helpers)
-	stores, _ := c.FieldAccesses(bs.recv, bs.dispatch)
+	stores, _ := c.FieldAccesses(bs.owner, bs.dispatch)
 	for _, st := range stores {
 		if core.IsNilConst(st.Store.Val) {
 			continue
